@@ -15,7 +15,7 @@ MAPS = {
     # one item per line, in order, unaltered
     'C08': r'^shape\.|^junk$',
     # list
-    'C11': r'^counts$|^none\.n$|^shape\.|^shown\.|^info$',
+    'C11': r'^counts$|^none\.n$|^shape\.|^shown\.(name|dir|nargs|target\.id|conn)$|^info$|^selected$',
     # accumulation
     'C12': r'^filter(\.len)?$|^break(\.len)?$|^info$|^shape\.(want|missing|extra)\.(error|info)',
     # times and separators
